@@ -70,6 +70,9 @@ TRet == /\ IsEvent("ret") /\ ~("panic" \in DOMAIN E)
         /\ ref' = [ref EXCEPT ![E.p].st = "returned", ![E.p].res = E.res,
                               ![E.p].id = IF E.res = "error" /\ E.leaked >= 0 THEN E.leaked ELSE @]
 
+\* Session.Close of some session of the process (the one a pending ping was called on, or another one): no effect
+TClose == /\ IsEvent("close") /\ Mech(CloseSessionM) /\ UNCHANGED <<ref, inj>>
+
 TEnd == /\ IsEvent("end")
         /\ (M => /\ \A p \in Procs : pc[p] \in {"idle", "done"}
                  /\ TableIds = SeqSet(E.waiters) /\ nextID = E.next)
@@ -94,7 +97,7 @@ IDeliver  == /\ M /\ inj # Nil /\ ~inj.done
 TraceInit == /\ l = 1 /\ TLCSet(HW, 0) /\ TLCSet(VI, <<>>)
              /\ Init /\ inj = Nil
 
-TraceNext == \/ TReset \/ TStart \/ TSent \/ TInject \/ TParsed \/ TRet \/ TEnd \/ TAbort
+TraceNext == \/ TReset \/ TStart \/ TSent \/ TInject \/ TParsed \/ TRet \/ TClose \/ TEnd \/ TAbort
              \/ IRegister \/ ISend \/ ISendFail \/ IWake \/ ITimer \/ ICleanup \/ IReturn \/ IDeliver
 
 TraceSpec == TraceInit /\ [][TraceNext]_tvars
